@@ -140,7 +140,10 @@ var operatorNames = []string{
 	"put", "putinterval", "readonly", "repeat", "roll", "stop", "string", "sub", "type",
 	"where",
 	// present in the library but not modelled: calling them marks the run unsupported
-	"closefile", "currentfile", "eexec", "internaldict", "matrix", "readstring",
+	"closefile", "currentfile", "eexec", "matrix", "readstring",
+	// Type 1 book, section 8.1: `1183615869 internaldict` gives access to
+	// a dictionary private to the interpreter instance
+	"internaldict",
 }
 
 // NewMachine creates a machine in the initial state.
@@ -975,6 +978,21 @@ func init() {
 			m.popN(1)
 			a.X = true
 			m.push(a)
+			return nil
+		},
+		"internaldict": func(m *Machine) *PSError {
+			if e := m.need("internaldict", 1); e != nil {
+				return e
+			}
+			a := m.top(0)
+			if a.K != KInt {
+				return perr("typecheck", "internaldict")
+			}
+			if a.I != 1183615869 {
+				return perr("invalidaccess", "internaldict")
+			}
+			m.popN(1)
+			m.push(DictObj(m.Internal))
 			return nil
 		},
 		"readonly":    noop,
